@@ -18,6 +18,9 @@ def gen_structured(tape, *, kinds=("uniform", "rectilinear", "esri"), max_dim=3,
         if big_coords and tape.chance(1, 4):
             # projected coordinates with fine cells (UTM-like): seven significant digits are not enough
             sp.update(cellsize=0.25, xll=4375000.25, yll=5700000.125)
+        elif big_coords and tape.chance(1, 4):
+            sp.update(cellsize=tape.choice([0.1, 0.2, 0.05]), xll=tape.choice([0.0, -180.0, 0.1]), yll=tape.choice([0.2, 50.0, -0.3]))
+            sp["ncols"], sp["nrows"] = tape.rng_int(1, 8), tape.rng_int(1, 8)
         if tape.chance(1, 5):
             sp["cast"] = tape.choice(["uniform", "rectilinear", "uniform+rectilinear"])
         return sp
@@ -38,6 +41,11 @@ def gen_structured(tape, *, kinds=("uniform", "rectilinear", "esri"), max_dim=3,
         if big_coords and tape.chance(1, 4):
             sp["spacing"] = [0.25] * dim
             sp["origin"] = [4375000.25, 5700000.125, 1000000.375][:dim]
+        elif big_coords and tape.chance(1, 4):
+            # spacings that are no binary fractions (0.1 degree rasters and the like), origins off zero: node k sits at
+            # origin + k * spacing, and there are exactly as many nodes as asked for
+            sp["spacing"] = [tape.choice([0.1, 0.2, 0.05, 0.7]) for _ in range(dim)]
+            sp["origin"] = [tape.choice([0.0, -180.0, 0.1, -0.3, 50.0]) for _ in range(dim)]
         if cube:
             sp["spacing"] = [sp["spacing"][0]] * dim
             sp["origin"] = [sp["origin"][0]] * dim
